@@ -23,6 +23,25 @@ def ctor_calls(ctx, f, cls_qn):
     return [x for x in ctx.types.calls_in(f) if c in ctx.types.resolve_call(x, f).ctor]
 
 
+def _is_attr_dict(ctx, arg, fi, val, depth=0):
+    """arg denotes `<val>.__dict__`, directly, through a local, or through a helper returning its parameter's __dict__ (or None)."""
+    t = ctx.types
+    if norm(arg) == "%s.__dict__" % val:
+        return True
+    if isinstance(arg, ast.Name) and depth < 3:
+        binds = [b for k, b in t.local_bindings(fi, arg.id) if k == "assign"]
+        return len(binds) == 1 and binds[0][1] is not None and _is_attr_dict(ctx, binds[0][1], fi, val, depth + 1)
+    if isinstance(arg, ast.Call) and depth < 3:
+        tg = t.resolve_call(arg, fi)
+        if len(tg.repo) == 1 and not tg.by_name and not tg.repo[0].is_wrapped:
+            g_ = tg.repo[0]
+            b = t.bind_args(g_, arg)
+            pn = [k for k, v in b.items() if norm(v) == val]
+            rets = [r.value for r in t.nodes_in(g_, ast.Return) if r.value is not None and not (isinstance(r.value, ast.Constant) and r.value.value is None)]
+            return len(pn) == 1 and bool(rets) and all(norm(r) == "%s.__dict__" % pn[0] for r in rets)
+    return False
+
+
 def run(ctx: Ctx, tier: str) -> Result:
     res = Result("C02")
     res.explanation = (
@@ -57,7 +76,9 @@ def run(ctx: Ctx, tier: str) -> Result:
         "line_number": lambda v: v == ["%s.f_lineno" % F],
         "short_path": lambda v: len(v) == 1 and v[0].endswith("parse_short_name(%s.f_code.co_filename)[0]" % F),
         "app_frame": lambda v: len(v) == 1 and v[0].endswith("parse_short_name(%s.f_code.co_filename)[1]" % F),
-        "class_name": lambda v: sorted(v) == sorted(["None", "%s.f_locals.get('self', None).__class__.__name__" % F]),
+        "class_name": lambda v: sorted(v) in (sorted(["None", "%s.f_locals.get('self', None).__class__.__name__" % F]),
+                                              sorted(["None", "type(%s.f_locals.get('self', None)).__name__" % F]),
+                                              sorted(["None", "type(%s.f_locals.get('self')).__name__" % F])),
         "variables": lambda v: "[]" in v and len(v) == 2 and any(("process_variable('locals', %s.f_locals)" % F) in x and x.endswith("._children") for x in v),
     }
     for k, okf in expect.items():
@@ -292,9 +313,10 @@ def run(ctx: Ctx, tier: str) -> Result:
             found["dict entries"] = True
         if "process_list_breadth_first" in names_ and val in args_ and "LIST_LIKE_TYPES" in conds:
             found["sequence elements"] = True
-        if "process_list_breadth_first" in names_ and ("%s.args" % val) in args_ and "isinstance(%s, Exception)" % val in conds:
+        if "process_list_breadth_first" in names_ and ("%s.args" % val) in args_ and (
+                "isinstance(%s, Exception)" % val in conds or "issubclass(%s, Exception)" % ty in conds):
             found["exception args"] = True
-        if "process_dict_breadth_first" in names_ and ("%s.__dict__" % val) in args_ and "correct_names" in args_:
+        if "process_dict_breadth_first" in names_ and "correct_names" in args_ and any(_is_attr_dict(ctx, a_, fcp, val) for a_ in c.args):
             found["object attributes"] = True
     if len(found) == 4:
         res.ok("C02.CHILD", {"children by kind": sorted(found)})
